@@ -135,6 +135,11 @@ def run(ctx):
             prog = ctx.rng.choice(OPROGS); th = [str(i) for i in range(prog.count('/') + 1)]
             ocases.append((prog, bursty(ctx.rng, th, flush=ctx.rng.choice([0.0, 0.05, 0.3]))))
         corr_schedules(ctx, 'wfcqueue FIFO (non-blocking dequeue, with-state, splice, iteration, empty)', impl, None, ocases, canon_c, oracle=oracle, nontrivial=nontrivial, tail=tail, scenario='scen_wfcq (oracle only)')
+    # the same scenario with plain stores (node initialisation) as scheduling points and buffered stores: oracle only
+    pimpl = build_scenario(ctx, 'scen_wfcq_plain', 'scen_wfcq.c', plain=True)
+    if pimpl and impl:
+        pc = (cases + ocases)[::3 if ctx.quick() else 2]
+        corr_schedules(ctx, 'wfcqueue FIFO with instrumented plain stores', pimpl, None, pc, canon_c, oracle=oracle, nontrivial=nontrivial, tail=tail, scenario='scen_wfcq_plain (oracle only)')
     return finish(ctx, trusted=TRUSTED,
                   rule='schedules (Step/Flush choices) = corpus + parking sweeps (enqueuer frozen at each program point incl. between tail exchange and link store, '
                        'store buffered or flushed; dequeuer frozen at each point) + bursty random with flush probability 0-0.3; non-trivial = the dequeuer had to wait '
